@@ -4,49 +4,36 @@ import (
 	"encoding/json"
 	"fmt"
 	"testing"
-	"time"
+
+	"github.com/osmosis-labs/osmosis/v31/x/smart-account/testutils"
 )
 
 func js(v any) string { b, _ := json.Marshal(v); return string(b) }
 
-func TestSmokeSA(t *testing.T) {
+// TestConfirmAfterFailedExecutionDemo (finding X05-1): the selected authenticator receives
+// ConfirmExecution although the only message of the transaction failed, and a successful
+// delivery is confirmed with Simulate=true (the flags arrive swapped at the post handler).
+func TestConfirmAfterFailedExecutionDemo(t *testing.T) {
 	w := newWorld(t)
-	w.begin("smoke", 2, map[string]string{"p1": "full", "p2": "full", "s1": "last"}, []string{"A2"})
+	w.begin("demo1", 1, map[string]string{"p1": "full", "s1": "last"}, nil)
 	a := w.byName["A1"]
-	id := func(i int) uint64 { return uint64(i) }
-	ok, i1, calls, err := w.addMsg(a, comp("any", leaf("probe", "p1", false, true, true, true, true), leaf("probe", "p2", true, true, false, true, true)))
-	fmt.Println("add", ok, i1, js(calls), err)
-	ok, i2, calls, err := w.addMsg(a, comp("all", leaf("spy", "s1", true, true, true, true, true), leaf("gen", "g", true, true, true, true, true)))
-	fmt.Println("add", ok, i2, js(calls), err)
-	fmt.Println(js(w.state()))
-	t0 := time.Now()
+	_, i1, _, _ := w.addMsg(a, leaf("probe", "p1", true, true, true, true, true))
+	_, i2, _, _ := w.addMsg(a, leaf("spy", "s1", true, true, true, true, true))
 	for _, k := range []string{"send", "bad"} {
-		ts := txSpec{Msgs: []txMsg{{A: "A1", Sel: i1, M: msgBody{K: k, T: nilNode()}}}, Ext: "ok", Fee: 1}
-		r := w.deliver(ts, id)
-		fmt.Println(k, r.OK, r.Err, js(r.Calls))
-		fmt.Println(js(w.state()))
+		r := w.deliver(txSpec{Msgs: []txMsg{{A: "A1", Sel: i1, M: msgBody{K: k, T: nilNode()}}}, Ext: "ok", Fee: 1}, ident)
+		fmt.Printf("message %q: accepted=%v (%s)\n  calls seen by the selected authenticator: %s\n", k, r.OK, r.Err, js(r.Calls))
 	}
-	ts := txSpec{Msgs: []txMsg{{A: "A1", Sel: i2, M: msgBody{K: "send", T: nilNode()}}}, Ext: "ok", Fee: 1}
-	r := w.deliver(ts, id)
-	fmt.Println("spy", r.OK, r.Err, js(r.Calls))
-	ts = txSpec{Msgs: []txMsg{{A: "A1", Sel: i2, M: msgBody{K: "send", T: nilNode()}}}, Ext: "none", Fee: 1}
-	r = w.deliver(ts, id)
-	fmt.Println("classic", r.OK, r.Err, js(r.Calls))
-	fmt.Println(js(w.state()))
-	fmt.Println("4 tx", time.Since(t0))
-	fmt.Println(w.reimport())
-	w.nextBlock()
-	fmt.Println(js(w.state()))
-	f, tr, n := w.query(a, uint64(i1))
-	fmt.Println(f, js(tr), n)
+	r := w.deliver(txSpec{Msgs: []txMsg{{A: "A1", Sel: i2, M: msgBody{K: "send", T: nilNode()}}}, Ext: "ok", Fee: 1}, ident)
+	c := testutils.SpyAuthenticator{KvStoreKey: w.key, Name: "s1"}.GetLatestCalls(w.Ctx)
+	fmt.Printf("successful delivery (accepted=%v, not a simulation): the ConfirmExecution request has Simulate=%v\n", r.OK, c.ConfirmExecution.Simulate)
 }
 
-// TestFeeReplayDemo (observation, no stated property violated): a transaction whose first message is
-// authenticated and whose second is not leaves the fee charged and the sequence numbers unchanged, so
-// the very same signed bytes are accepted for charging again.
+// TestFeeReplayDemo (finding X05-2): a transaction whose first message is authenticated and whose
+// second is not leaves the fee charged and the sequence numbers unchanged, so the very same signed
+// bytes are charged again on every delivery.
 func TestFeeReplayDemo(t *testing.T) {
 	w := newWorld(t)
-	w.begin("feedemo", 2, map[string]string{"p1": "full", "p2": "full"}, nil)
+	w.begin("demo2", 2, map[string]string{"p1": "full", "p2": "full"}, nil)
 	_, i1, _, _ := w.addMsg(w.byName["A1"], leaf("probe", "p1", true, true, true, true, true))
 	_, i2, _, _ := w.addMsg(w.byName["A2"], leaf("probe", "p2", false, true, true, true, true))
 	ts := txSpec{Msgs: []txMsg{{A: "A1", Sel: i1, M: msgBody{K: "send", T: nilNode()}}, {A: "A2", Sel: i2, M: msgBody{K: "send", T: nilNode()}}}, Ext: "ok", Fee: 1}
